@@ -1445,6 +1445,63 @@ Definition x_next_segment (seek_data seek_hole : N -> seek_ans) (len pos : N) : 
 }
 
 
+/// libfs::map_extents: the FIEMAP paging loop.  The shape is validated statement by statement; the expressions
+/// (extent record, flag tests, next request start) are translated.
+fn map_extents_loop(src: &Src) -> R<String> {
+    let (_, block) = find_fn(src, "map_extents")?;
+    let norm = |t: &dyn quote::ToTokens| quote::ToTokens::to_token_stream(t).to_string().replace(' ', "");
+    // prelude: let mut req = FiemapReq::new(); let mut extents = Vec::with_capacity(..); loop {..}; Ok(Some(extents))
+    if block.stmts.len() != 4 { return Err(format!("map_extents: {} top-level statements (expected 4)", block.stmts.len())); }
+    if !norm(&block.stmts[0]).starts_with("letmutreq=FiemapReq::new()") { return Err("map_extents: first statement".into()); }
+    if !norm(&block.stmts[1]).starts_with("letmutextents=Vec::with_capacity(") { return Err("map_extents: second statement".into()); }
+    if norm(&block.stmts[3]) != "Ok(Some(extents))" { return Err("map_extents: tail".into()); }
+    let lp = match &block.stmts[2] { Stmt::Expr(Expr::Loop(l), _) => l, _ => return Err("map_extents: third statement is not `loop`".into()) };
+    let b = &lp.body.stmts;
+    if b.len() != 6 { return Err(format!("map_extents: loop body has {} statements (expected 6)", b.len())); }
+    if norm(&b[0]) != "if!fiemap(fd,&mutreq)?{returnOk(None)}" && norm(&b[0]) != "if!fiemap(fd,&mutreq)?{returnOk(None);}" {
+        return Err(format!("map_extents: loop statement 1: {}", norm(&b[0])));
+    }
+    if norm(&b[1]) != "ifreq.fm_mapped_extents==0{break;}" { return Err(format!("map_extents: loop statement 2: {}", norm(&b[1]))); }
+    let fl = match &b[2] { Stmt::Expr(Expr::ForLoop(f), _) => f, _ => return Err("map_extents: loop statement 3 is not `for`".into()) };
+    if norm(&fl.pat) != "i" || norm(&fl.expr) != "0..req.fm_mapped_extentsasusize" { return Err("map_extents: for header".into()); }
+    let fb = &fl.body.stmts;
+    if fb.len() != 3 || norm(&fb[0]) != "lete=req.fm_extents[i];" || norm(&fb[2]) != "extents.push(ext);" {
+        return Err(format!("map_extents: for body: {:?}", fb.iter().map(|x| norm(x)).collect::<Vec<_>>()));
+    }
+    // let ext = Extent { start: .., end: .., shared: .. };
+    let ext = match &fb[1] { Stmt::Local(l) if pat_ident(&l.pat).as_deref() == Some("ext") => &l.init.as_ref().ok_or("ext init")?.expr, _ => return Err("map_extents: `let ext`".into()) };
+    let st = match &**ext { Expr::Struct(s) => s, _ => return Err("map_extents: ext is not a struct literal".into()) };
+    fn fx(e: &Expr, var: &str) -> R<String> {
+        // expressions over one FIEMAP extent `var`: fields, +, flag tests
+        let t = quote::ToTokens::to_token_stream(e).to_string().replace(' ', "");
+        if t == format!("{}.fe_flags&FIEMAP_EXTENT_SHARED!=0", var) { return Ok(format!("(fe_shared {})", var)); }
+        if t == format!("{}.fe_flags&FIEMAP_EXTENT_LAST!=0", var) { return Ok(format!("(fe_last {})", var)); }
+        match e {
+            Expr::Field(f) => { if let syn::Member::Named(i) = &f.member { if flat_name(&f.base).as_deref() == Some(var) { return Ok(format!("({} {})", i, var)); } } Err(format!("field {}", t)) }
+            Expr::Binary(b) if matches!(b.op, BinOp::Add(_)) => Ok(format!("({} + {})", fx(&b.left, var)?, fx(&b.right, var)?)),
+            Expr::Paren(p) => fx(&p.expr, var),
+            _ => Err(format!("map_extents: unsupported extent expression {}", t)),
+        }
+    }
+    let mut fields = BTreeMap::new();
+    for fv in &st.fields { if let syn::Member::Named(i) = &fv.member { fields.insert(i.to_string(), fx(&fv.expr, "e")?); } }
+    let g = |k: &str| fields.get(k).cloned().ok_or(format!("map_extents: Extent field {} missing", k));
+    if norm(&b[3]) != "letlast=req.fm_extents[(req.fm_mapped_extents-1)asusize];" { return Err(format!("map_extents: loop statement 4: {}", norm(&b[3]))); }
+    let brk = match &b[4] { Stmt::Expr(Expr::If(i), _) if norm(&i.then_branch) == "{break;}" && i.else_branch.is_none() => fx(&i.cond, "last")?, _ => return Err("map_extents: loop statement 5".into()) };
+    let nxt = match &b[5] { Stmt::Expr(Expr::Assign(a), _) if norm(&a.left) == "req.fm_start" => fx(&a.right, "last")?, _ => return Err("map_extents: loop statement 6".into()) };
+    Ok(format!("(* {}:{}  map_extents: the FIEMAP paging loop (`loop` with two `break`s and an early `return Ok(None)`) *)\n\
+Fixpoint x_map_extents_go (fuel : nat) (fiemap : N -> fiemap_ans) (req_fm_start : N) (extents : list extent) : mx_result :=\n\
+  match fuel with\n  | O => MxOutOfFuel\n  | S fuel =>\n\
+      match fiemap req_fm_start with\n      | FmUnsupported => MxNone\n      | FmErr e => MxErr e\n      | FmPage pg =>\n\
+          if (N.of_nat (List.length pg) =? 0) then MxSome extents else\n\
+          let extents := fold_left (fun extents e => let ext := mkExt {s} {e} {sh} in extents ++ [ext]) pg extents in\n\
+          match nth_error pg (List.length pg - 1) with\n          | None => MxSome extents\n          | Some last =>\n\
+              if {brk} then MxSome extents else\n              let req_fm_start := {nxt} in\n              x_map_extents_go fuel fiemap req_fm_start extents\n          end\n      end\n  end.\n\
+Definition x_map_extents (fuel : nat) (fiemap : N -> fiemap_ans) : mx_result := x_map_extents_go fuel fiemap 0 [].\n",
+        src.path, lp.span().start().line, s = g("start")?, e = g("end")?, sh = g("shared")?, brk = brk, nxt = nxt))
+}
+
+
 fn main() {
     let root = std::env::args().nth(1).unwrap_or_else(|| "/repo".to_string());
     let root = Path::new(&root);
@@ -1533,6 +1590,7 @@ fn main() {
         Ok(src) => {
             emit("probably_sparse", probably_sparse(&src), &mut out);
             emit("next_sparse_segments", next_sparse_segments(&src), &mut out);
+            emit("map_extents", map_extents_loop(&src), &mut out);
             emit("try_copy_file_range", errno_arms(&src, "try_copy_file_range", &|b| b.trim().trim_matches(|c| c == '{' || c == '}' || c == ' ') == "None")
                 .map(|(v, l)| format!("(* {}:{}  try_copy_file_range: errnos answered by the user-space fallback *)\nDefinition x_cfr_fallback_errnos : list N := {}.\n", src.path, l, nlist(&v))), &mut out);
             emit("reflink", errno_arms(&src, "reflink", &|b| b.replace(' ', "").contains("Ok(false)"))
